@@ -28,7 +28,7 @@ CHECK_DEADLOCK FALSE
 def design_check_and_scripts(ctx, maxpkts, seqs):
     """Exhaustive check of Server.tla within the bounds; returns the emitted scripts (one per client transition)."""
     cfg = mc_cfg(ctx, maxpkts, seqs)
-    emit = ctx.path("emit.csv")
+    emit = ctx.path("emit-server.csv")
     r = ctx.tlc_ok("MC_Server", cfg=cfg, env={"EMIT_FILE": emit}, workers=min(NCPU, 8), heap="8g")
     scripts = emitted_json_lines(emit)
     os.remove(emit)
